@@ -747,7 +747,7 @@ func TestProp(t *testing.T) {
 	}
 
 	r.Rule("rapid 'token': kind {mic,wrap} x etype {16,17,18,19,20,23} x random key x usage {22,23,24,25} x flags 0..7 x sequence number {0,1,2^32-1,2^32,2^64-1,random} x payload length 0..300 (boundary-biased) x variant {build, newinit, present, bitflip, truncate, extend, wrongdir, badid, badfiller, chg-payload, chg-flags, chg-seq, chg-key (same or other etype), chg-usage, nocksum}; non-trivial = every tampered presentation that really differs from the genuine one and every constructed token with payload > 0, distinct by (kind,etype,len,flags,seq,usage,variant,args)")
-	r.Rapid("token", r.N(6000, 60000), func(t *rapid.T) {
+	r.Rapid("token", r.N(6000, 300000), func(t *rapid.T) {
 		c := Case{Kind: rapid.SampledFrom([]string{gsstok.KindMIC, gsstok.KindWrap}).Draw(t, "kind")}
 		c.EType = kgen.EType(t)
 		key := kgen.Key(t, c.EType, "key")
